@@ -9,4 +9,4 @@ Extraction "Extract/m_redact.ml"
   GenNoteWriters.note_writers
   Taint.effective_mode Taint.cannot_refetch Taint.filter_log Taint.write Taint.run Taint.inv_cleanb
   Taint.safe_writer Taint.source_is_notes Taint.w_filtered Taint.w_redacts_in_notes Taint.inventory_ok
-  Taint.inventory_notes_ok Taint.unsafe_writers Taint.cas_clears_all Taint.cas_takes_with.
+  Taint.inventory_notes_ok Taint.unsafe_writers Taint.cas_clears_all Taint.cas_takes_with Taint.should_exclude.
